@@ -1,6 +1,7 @@
 package effects
 
 import (
+	"go/types"
 	"fmt"
 	"go/token"
 	"sort"
@@ -31,11 +32,42 @@ func storesTo(fn *ssa.Function) map[string][]string {
 				continue
 			}
 			if fa, ok := st.Addr.(*ssa.FieldAddr); ok {
-				k := strings.TrimPrefix(Expr(fa.X), "&") + "." + fieldName(fa.X.Type(), fa.Field)
+				k := storeBase(fa.X) + "." + fieldName(fa.X.Type(), fa.Field)
 				out[k] = append(out[k], Expr(st.Val))
 			}
 		}
 	}
+	return out
+}
+
+// storeBase names the object a field store goes to; locals are told apart by their type.
+func storeBase(x ssa.Value) string {
+	if a, ok := x.(*ssa.Alloc); ok {
+		t := a.Type()
+		if p, ok := t.Underlying().(*types.Pointer); ok {
+			t = p.Elem()
+		}
+		if n, ok := t.(*types.Named); ok {
+			return "local:" + n.Obj().Name()
+		}
+	}
+	return strings.TrimPrefix(Expr(x), "&")
+}
+
+// storesToDeep: as storesTo, including the stores made by the unexported helpers of the package that fn
+// calls, in the context of the call.
+func storesToDeep(fn *ssa.Function) map[string][]string {
+	out := map[string][]string{}
+	deepInstrs(fn, func(in ssa.Instruction) {
+		st, ok := in.(*ssa.Store)
+		if !ok {
+			return
+		}
+		if fa, ok := st.Addr.(*ssa.FieldAddr); ok {
+			k := storeBase(fa.X) + "." + fieldName(fa.X.Type(), fa.Field)
+			out[k] = append(out[k], Expr(st.Val))
+		}
+	})
 	return out
 }
 
@@ -77,26 +109,24 @@ func ScannerHelpers(w *World, rel string) *report.RuleResult {
 		expect("setTokenPosition", fn, st, "$1.Position", posE, "the position object of the token")
 	}
 	if fn := get("Lexer.addFreeFloatingToken"); fn != nil {
-		st := storesTo(fn)
+		st := storesToDeep(fn)
 		tk := "pkg/token.Pool.Get($recv.tokenPool)"
 		expect("addFreeFloatingToken", fn, st, tk+".ID", "$2", "the kind of the skipped text")
 		expect("addFreeFloatingToken", fn, st, tk+".Value", "$recv.data[$3:$4]", "the skipped text")
 		// position set through setTokenPosition(skippedTkn), appended to t.FreeFloating on every path
 		setpos, appended := false, 0
-		for _, b := range fn.Blocks {
-			for _, in := range b.Instrs {
-				if c, ok := in.(*ssa.Call); ok {
-					if callee := c.Common().StaticCallee(); callee != nil && callee.Name() == "setTokenPosition" && len(c.Common().Args) == 2 && Expr(c.Common().Args[1]) == tk {
-						setpos = true
-					}
-					if bi, ok := c.Common().Value.(*ssa.Builtin); ok && bi.Name() == "append" {
-						if strings.Contains(Expr(c.Common().Args[0]), "$1.FreeFloating") {
-							appended++
-						}
+		deepInstrs(fn, func(in ssa.Instruction) {
+			if c, ok := in.(*ssa.Call); ok {
+				if callee := c.Common().StaticCallee(); callee != nil && callee.Name() == "setTokenPosition" && len(c.Common().Args) == 2 && Expr(c.Common().Args[1]) == tk {
+					setpos = true
+				}
+				if bi, ok := c.Common().Value.(*ssa.Builtin); ok && bi.Name() == "append" {
+					if strings.Contains(Expr(c.Common().Args[0]), "$1.FreeFloating") {
+						appended++
 					}
 				}
 			}
-		}
+		})
 		if !setpos {
 			// setTokenPosition written out in place: the same stores it makes, for the skipped token
 			posE := "pkg/position.Pool.Get($recv.positionPool)"
@@ -141,8 +171,8 @@ func ScannerHelpers(w *World, rel string) *report.RuleResult {
 	}
 	if fn := get("NewLexer"); fn != nil {
 		st := storesTo(fn)
-		expect("NewLexer", fn, st, "local.data", "$1", "the scanner must work on the caller's bytes at the caller's offsets")
-		expect("NewLexer", fn, st, "local.pe", "len($1)", "end of input")
+		expect("NewLexer", fn, st, "local:Lexer.data", "$1", "the scanner must work on the caller's bytes at the caller's offsets")
+		expect("NewLexer", fn, st, "local:Lexer.pe", "len($1)", "end of input")
 	}
 	if fn := get("Lexer.Lex"); fn != nil {
 		st := storesTo(fn)
